@@ -19,16 +19,21 @@
 //   empty-while-nonempty  (strict variants only: tagged, cached*_tagged; `--strict 1` forces it for all, `--strict 0`
 //                         disables it) get() returned nullptr although some node was in the bag during the whole
 //                         call (its put() had returned before the get() was invoked, nobody obtained it until the
-//                         get() returned and no get() still in progress can have unlinked it).  FreeList defers the insertion of a node that is still referenced by a
-//                         concurrent get(), so it does not promise this; such events are only counted (`# cov`).
+//                         get() returned and no get() still in progress can have unlinked it).  Not raised for
+//                         FreeList / CachedFreeList<FreeList> by default: FreeList defers the insertion of a node that
+//                         is still referenced by a concurrent get() and makes no such promise (`# cov relaxed_empty`
+//                         counts the events there).
 //   at quiescence (finish(), main thread): the list is drained with get(); exactly the nodes that were put and not
 //   taken must come out: lost-node / duplicate-on-drain / double-hand-out / drain-not-terminating / not-empty-after-drain
 //
 // The real history is also written as `H` lines in the syntax of `O` lines (initial puts by the main thread:
 // `H 90 0 0 put v : 1`, the quiescent drain: tid 91), so that
 //     grep -v '^O ' out | sed 's/^H /O /' | cdsdriver lincheck        (client run with `--spec bag`)
-// judges it against Spec.bag.  FreeList and CachedFreeList<FreeList> are expected to produce NOTLIN histories of the
-// empty-while-nonempty kind (see above).
+// judges it against Spec.bag.  Plain FreeList is expected to produce some NOTLIN histories (about 2% of the cases):
+// a put() whose node is still referenced by a concurrent get() returns before the node is linked (the last getter
+// that drops its reference links it), and that getter then returns nullptr although it has just linked the node
+// (its failed CAS left head == nullptr and the loop does not reload m_Head).  So get() -> nullptr does not imply
+// that the bag was empty at any instant of the call.  Safety (no double hand-out, no lost node) is not affected.
 #include <cds/init.h>
 #include <cds/intrusive/free_list.h>
 #include <cds/intrusive/free_list_tagged.h>
@@ -94,17 +99,15 @@ static void name_list( ci::CachedFreeList<L, N, P>& l, std::string const& )
     }
     name_list( l.m_freeList, "fl." );
 }
+// The registry must not hold two entries with the same base address (the whole item is registered as "n<v>" so that
+// pointer VALUES render symbolically): the field at offset 0 is therefore shown under the item's name --
+// FreeList node: n<v> = m_freeListRefs, n<v>.next = m_freeListNext; TaggedFreeList node: n<v> = m_freeListNext.
 static void name_node( ci::FreeList::node* p, int v )
 {
     char nm[32];
-    std::snprintf( nm, sizeof nm, "n%d.refs", v ); reg_name( &p->m_freeListRefs, sizeof( p->m_freeListRefs ), nm );
     std::snprintf( nm, sizeof nm, "n%d.next", v ); reg_name( &p->m_freeListNext, sizeof( p->m_freeListNext ), nm );
 }
-static void name_node( ci::TaggedFreeList::node* p, int v )
-{
-    char nm[32];
-    std::snprintf( nm, sizeof nm, "n%d.next", v ); reg_name( &p->m_freeListNext, sizeof( p->m_freeListNext ), nm );
-}
+static void name_node( ci::TaggedFreeList::node*, int ) {}
 
 template <class List> struct cache_size_of { static constexpr size_t value = 0; };
 template <class L, size_t N, unsigned P> struct cache_size_of< ci::CachedFreeList<L, N, P> > { static constexpr size_t value = N; };
